@@ -22,7 +22,7 @@ ASSUMPTIONS = ["the independent model vf/model/{blssig,h2c,bls12381}.py and its 
                "hashlib.sha256 is correct"]
 ENGINE = "hypothesis"
 _REQ = ["cross_suite_sequence", "sign:basic", "sign:aug", "sign:pop", "pop_prove", "aggregate:n>=2", "anchor:eth_sig", "anchor:eth_agg",
-        "anchor:eth_pk", "sign:sk>=200b", "sign:msg=empty", "sign:msg=56-64", "aggregate:non_subgroup"]
+        "anchor:eth_pk", "sign:sk>=200b", "sign:msg=empty", "sign:msg=56-64", "aggregate:non_subgroup", "aggregate:prefix_sums_to_identity"]
 REQUIRED_LABELS = {"quick": _REQ, "thorough": _REQ}
 
 
@@ -121,6 +121,12 @@ def o_aggregate(ctx, case):
         ctx.nontrivial(("a", suite, case["sigs"]))
     if any(not B.g2_in_subgroup(p) for p in pts):
         ctx.label("aggregate:non_subgroup")
+    acc, hit = None, False
+    for p in pts[:-1]:
+        acc = B.g2_add(acc, p)
+        hit = hit or acc is None
+    if hit:
+        ctx.label("aggregate:prefix_sums_to_identity")
     ctx.sample(case, "aggregate")
 
 
@@ -140,12 +146,20 @@ def s_aggregate():
         for kind, a, b in entries:
             if kind == 0:
                 sigs.append(blssig.sign(suite, a, bytes([b % 7])))
+            elif kind == 3:
+                sigs.append(B.signature_bytes(None))                       # the identity as a list member
+            elif kind == 4 and sigs:
+                pt = B.signature_point(sigs[-1 - b % len(sigs)])           # the inverse of an earlier entry:
+                sigs.append(B.signature_bytes(B.g2_mul(pt, -1)))           # a prefix of the list sums to O
+            elif kind == 5 and len(sigs) >= 2:
+                acc = blssig.aggregate_points([B.signature_point(x) for x in sigs])
+                sigs.append(B.signature_bytes(B.g2_mul(acc, -1)))          # minus the running sum
             else:
                 sigs.append(B.signature_bytes(bc.seed_point("G2", a % 40) if kind == 1
                                               else bc.torsion_point("G2", a % 40)))
         return {"suite": suite, "sigs": [hx(s) for s in sigs]}
-    entry = st.tuples(st.sampled_from([0, 0, 0, 0, 1, 2]), st.integers(1, 12), st.integers(0, 6))
-    return st.tuples(sc.s_suite(), st.lists(entry, min_size=1, max_size=5)).map(build)
+    entry = st.tuples(st.sampled_from([0, 0, 0, 0, 1, 2, 3, 4, 4, 5]), st.integers(1, 12), st.integers(0, 6))
+    return st.tuples(sc.s_suite(), st.lists(entry, min_size=1, max_size=6)).map(build)
 
 
 def _anchor_cases():
